@@ -36,7 +36,7 @@ func TestC12(t *testing.T) {
 		return kind == "clientctx" && !acquire
 	})
 	defer http2.VerifSetPoolHook(poisonHook)
-	n := r.Pick(3000, 150000)
+	n := r.Pick(3000, 60000)
 	for i := 0; i < n; i++ {
 		id := fmt.Sprintf("x%d", i)
 		if !r.Want(i, id) {
